@@ -291,6 +291,43 @@ pub fn run_rows(obs: &mut Obs, c: &Case, pred: &dyn Pred, spec: &Spec, qr: case:
         }
     }
 
+    // ---- poisoned neighbour: one non-last row replaced by garbage must not change any OTHER row
+    if m >= 2 {
+        obs.class("poisoned_neighbour");
+        let pos = vengine::gen::idx(c.poison.0, m - 1);
+        let (label, bad) = case::poison_row(&rows[pos], c.poison.1);
+        obs.class(label);
+        let alone = case::to_array(std::slice::from_ref(&bad), p);
+        let panics_alone = vengine::guard(|| pred.one(&alone)).is_err();
+        let mut prows = rows.clone();
+        prows[pos] = bad;
+        let pq = case::to_array(&prows, p);
+        let out = if panics_alone {
+            // the poisoned row cannot be predicted at all: a panic of the batch is that row's doing
+            obs.class("poisoned_row_panics_alone");
+            vengine::guard(|| pred.one(&pq)).ok()
+        } else {
+            obs.call("predict(batch with a poisoned row)", || pred.one(&pq))
+        };
+        if let Some(out) = out {
+            obs.class("poisoned_others_compared");
+            if obs.ensure(out.nrows() == m, "poisoned-neighbour:length", || {
+                format!("{} outputs for {m} input rows when row {pos} is {:?}", out.nrows(), prows[pos])
+            }) {
+                for i in (0..m).filter(|&i| i != pos) {
+                    match compare(spec, &rows[i], &single[i], &out.rows[i], spec.exact_same_layout) {
+                        Verdict::Same => {}
+                        Verdict::Tie => obs.class("tie_accepted"),
+                        Verdict::Differ(d) => obs.fail(
+                            "poisoned-neighbour:value",
+                            format!("row {pos} of the batch replaced by {:?}: the prediction of row {i} changed: {d}", prows[pos]),
+                        ),
+                    }
+                }
+            }
+        }
+    }
+
     // ---- composition with repetition / omission
     let dup = case::dup_indices(c, m);
     if !dup.is_empty() {
